@@ -290,6 +290,17 @@ package unmarshal
 // without source_type must not inherit the one of the entry before it).
 //@ func (*datadogRequestDec).Decode$1 [C03]
 //@   flag checks=-index,-assert
+// each key of a Datadog log item fills its own field and no other one: the label set of
+// the entry is built from these fields, one label each
+//@ func (*datadogRequestDec).DecodeEntry$1 [C03]
+//@   flag checks=-index,-assert
+//@   ensures only-ddsource-sets-the-source: key != "ddsource" ==> d.Source == old(d.Source)
+//@   ensures only-source-type-sets-the-source-type: key != "source_type" ==> d.SourceType == old(d.SourceType)
+//@   ensures only-hostname-sets-the-hostname: key != "hostname" ==> d.Hostname == old(d.Hostname)
+//@   ensures only-service-sets-the-service: key != "service" ==> d.Service == old(d.Service)
+//@   ensures only-message-sets-the-message: key != "message" ==> d.Message == old(d.Message)
+//@   loop 1:
+//@     modifies d.Tags
 //@ func (*datadogRequestDec).DecodeEntry [C03]
 //@   requires entry-starts-clear: d.Source == "" && len(d.Tags) == 0 && d.Hostname == "" && d.Message == "" && d.Service == "" && d.TsMs == 0 && d.SourceType == ""
 //@   loop 1:
